@@ -391,6 +391,8 @@ def run_fullstack(seed, sc):
                 proxy = RecClient(real, mlog, c.clock)
                 g = G.ConsumerGroup(proxy, "grp", list(TOPICS), lambda consumer, msgs: None)
                 mlog.group = g
+                # the member runs with the source's DEFAULT back-offs and heartbeat interval: the model gets the same
+                mlog.cfg = (g.initial_backoff_ms, g.retry_backoff_ms, g.fatal_backoff_ms, g.heartbeat_interval_ms)
                 members.append((g, mlog, real))
                 run.logs.append(mlog)
             agenda = [(t, "start", i) for i, t in enumerate(sc["starts"])]
